@@ -134,9 +134,14 @@ fn wake_registered(w: &W, k: usize) {
         .filter(|(f, _, _)| *f == k)
         .map(|(_, t, wk)| (*t, wk.clone()))
         .collect();
-    for (t, wk) in ws {
+    for (i, (t, wk)) in ws.into_iter().enumerate() {
         log(w, PEvent::Wake(t));
-        wk.wake_by_ref();
+        // both entries of the waker vtable: by reference, and by value on a clone
+        if i % 2 == 0 {
+            wk.wake_by_ref();
+        } else {
+            wk.clone().wake();
+        }
     }
 }
 
@@ -864,14 +869,14 @@ fn main() {
     }
 
     // small random systems
-    let n_small = args.scale(700, 5000);
+    let n_small = args.scale(700, 8000);
     for k in 0..n_small {
         let mut r = rng.fork(k as u64);
         let (scripts, plan) = random_system(&mut r, false);
         emit(&mut w, "random-small", &scripts, &plan);
     }
     // larger random systems
-    let n_big = args.scale(300, 5000);
+    let n_big = args.scale(300, 8000);
     for k in 0..n_big {
         let mut r = rng.fork(1_000_000 + k as u64);
         let (scripts, plan) = random_system(&mut r, true);
